@@ -10,6 +10,31 @@ CHECKS = {
     note="Trusted: TLC, the pinned GrammarData.json for typed requests (Declared sets), the harness's logging of offset()/has_limit()/limit_reached() and of DecodeError's derived Debug text. The reported offset of a failed *string* request and the exact error kind at limit/end for typed requests are deliberately unconstrained (property silent).",
     technique="TLA+ model checking (TLC) of Decoder.tla + model-generated histories replayed on the real Decoder + TLC trace validation (DecoderTrace.tla)",
     design="5 C11"),
+ "C02": dict(
+    text="Assembler.tla (EncodeOperand/EncodeInst: the encoding the SPIR-V specification prescribes) and Parser.tla (ParseInst: the operational grammar) are checked against the real code on conforming instructions generated from the pinned grammar: every one of the 787 opcodes, every enumerant of every enum-kinded operand with its parameters, every mask bit / none / all (pairs at thorough), optional and variadic counts 0..3, OpConstant/OpSpecConstant/OpSwitch under every supported width, OpSpecConstantOp embedding every embeddable opcode, strings of every length mod 4. TLC checks words = EncodeInst(i) AND parsed = i independently, so a compensating pair of bugs is still caught.",
+    note="Literal values are sampled, not enumerated (they influence no branch except through enumerant tables, which are swept). Conformance of each generated instruction is itself decided by the specification (ParseInst(EncodeInst(i)) = i); a generator slip is a tool error.",
+    technique="TLC trace validation (ParserTrace.tla) of assemble/parse behaviours against Assembler.tla and Parser.tla over grammar-directed inputs",
+    design="5 C02"),
+ "C03": dict(
+    text="Parser.tla is an operational TLA+ definition of the SPIR-V binary language (header, framing, quantifier loop, enumerant/mask parameters, context-dependent literals, OpSpecConstantOp) with fault classes and the set of error values C03 admits per class. Every real parse of thousands of well-formed random modules and of their single-fault mutants (truncation at any byte, word count, opcode, operand word substitution/insertion/deletion, header faults, extents past the end, trailing bytes, OpSpecConstantOp embedding every opcode number) is validated by TLC: accept/reject, delivered prefix, error class, instruction number and offset interval.",
+    note="Readings of ambiguous sentences are fixed in DESIGN.md 4.6 (each the one that demands less of the code). Grammar facts come from the pinned GrammarData.json.",
+    technique="TLC trace validation (ParserTrace.tla) of real parses against the operational grammar Parser.tla",
+    design="5 C03"),
+ "C04": dict(
+    text="The Decoder and Parser specifications are total (TLC checks Decoder totality as an invariant over limits 0..3 and Huge); a panic is a result no specification action produces. Hostile inputs: >100k decoder requests with limits up to usize::MAX on buffers of every length mod 4, all C03 mutant classes, OpSpecConstantOp with every opcode, scripted consumers, and the load/assemble/disassemble pipeline on every module the loader accepts; every call runs under catch_unwind with overflow checks on.",
+    note="Memory safety proper is not visible to TLA+: out-of-bounds accesses are observed as panics of safe Rust; the single unsafe slice construction (parse_words) is exercised by every words-API event.",
+    technique="TLC model checking of totality (MC_Decoder) + TLC trace validation of hostile-input behaviours (DecoderTrace/ParserTrace/PipeTrace): a Panic event is not a behaviour of the specification",
+    design="5 C04"),
+ "C10": dict(
+    text="MC_Tracker explores every history of int/float declarations (widths 7..128), type-propagating definitions and literal consumers over 2 (3) ids, checks the width rule as an invariant and emits a shortest history per (state, instruction); each history becomes a binary whose literals have the word count the SPECIFICATION prescribes, plus +-1 word variants and a second parse of the consumer alone; ParserTrace validates what the real parser delivers (LiteralBit32/LiteralBit64/TypeUnsupported, rejection of the variants, independence of successive parses). Random histories of up to 40 instructions over 20 ids are added.",
+    note="ids are defined once per binary, as in the property's quantifier.",
+    technique="TLC model checking (MC_Tracker) + model-generated histories replayed through the real parser + TLC trace validation (ParserTrace.tla)",
+    design="5 C10"),
+ "C14": dict(
+    text="MC_Protocol models Parser::parse as a state machine (initialize, parse header, consume header, per-instruction parse/consume, finalize) with nondeterministic consumer answers and binary faults; TLC checks the C14 sentences as invariants and emits every complete behaviour; each is concretised (several binaries per behaviour) with a scripted logging consumer and the real callback log and result are validated by ParserTrace (protocol shape checked independently of the grammar). Plus every callback position x {stop, error} on random small modules and mutants.",
+    note="The consumer's own error value is a unique token per callback position recovered through Display.",
+    technique="TLC model checking (MC_Protocol) + model-generated behaviours replayed on the real parser + TLC trace validation (ParserTrace.tla ShapeOK)",
+    design="5 C14"),
 }
 
 def main():
